@@ -197,6 +197,12 @@ def make_handler_class(scn, side):
 
         async def on_close(self, rsocket, exception=None):
             self._ev('on_close', exc=repr(exception) if exception else None)
+            target = scn.cfg.get('on_close_start')
+            if target is not None and target < len(scn.inter) and scn.inter[target]['side'] == side and target not in scn.st \
+                    and not world.frozen:
+                # the application reacts to the close notification by issuing a request (a last report, a retry)
+                self._ev('issued_from_on_close', uid=target)
+                scn.start(target)
             waits = scn.cfg.get('on_close_waits')
             if waits:
                 # an application whose close notification does some work of its own: it sleeps, or it waits until the
